@@ -8,6 +8,7 @@ import (
 // VCtx is the per-lane view of a vector opcode's semantics.
 type VCtx struct {
 	S    [3]uint64 // sources after input modifiers
+	Mod  [3]bool   // the abs input modifier was applied to the source
 	Cin  bool      // this lane's bit of the mask source (carry-in / select)
 	D0   uint64    // old destination value of this lane
 	Lane int
@@ -529,8 +530,10 @@ func init() {
 				r.nan = true
 				continue
 			}
-			if nan > 0 {
-				r.nan = true // IEEE mode may return a quieted signalling NaN
+			for i := 0; i < 3; i++ {
+				if isSNaN32(u32(c.S[i])) {
+					r.nan = true // IEEE mode returns a quieted signalling NaN (as V_MIN_F32 12-70)
+				}
 			}
 			// sort numbers
 			for i := range v {
